@@ -1,6 +1,53 @@
 package c01
 
-import "github.com/magisterquis/curlrevshell/verifharness/mon"
+import (
+	"runtime"
+	"time"
 
-func stress(r *mon.Run)      {}
+	"github.com/anishathalye/porcupine"
+
+	"github.com/magisterquis/curlrevshell/verifharness/mon"
+	"github.com/magisterquis/curlrevshell/verifharness/mon/bk"
+)
+
+// stress: free-running goroutines, random yields at the hook points, the
+// boundary history judged by porcupine against the one-sided model.
+func stress(r *mon.Run) {
+	n := r.N(3000, 60000)
+	mon.Parallel(n, runtime.NumCPU(), func(i int) {
+		if !r.Want("stress", i) {
+			return
+		}
+		rng := r.Rng("stress", i)
+		plan := bk.StressPlan{Workers: 2 + rng.IntN(5), Attempts: 1 + rng.IntN(3), Keys: []string{"k", "K", "k1"}[:1+rng.IntN(3)], IOShare: rng.IntN(5)}
+		if plan.Workers*plan.Attempts > 9 {
+			plan.Attempts = 1
+		}
+		w, res := bk.RunStress(rng, plan, 20*time.Second)
+		if w == nil {
+			r.Inconclusive("world")
+			return
+		}
+		r.Eval(1)
+		r.Count("stress_histories", 1)
+		r.Count("stress_operations", int64(len(res.Ops)))
+		switch res.Verdict {
+		case porcupine.Ok:
+			r.Count("stress_linearizable", 1)
+		case porcupine.Unknown:
+			r.Inconclusive("porcupine timed out on a stress history")
+		case porcupine.Illegal:
+			r.Violate("stress", i, "stress-history-not-linearizable", "a free-running history of attempts and releases has no serialisation in which every admitted attempt was admissible (two streams of one direction, different IDs, or admission during tear-down)", map[string]any{"history": res.Describe, "decision_order": res.OrderSig})
+		}
+		if res.Stuck > 0 {
+			r.Violate("stress", i, "connect-does-not-return", "a Connect call did not return at the end of a stress history", map[string]any{"decision_order": res.OrderSig})
+		}
+		r.Distinct("stress:" + res.OrderSig)
+		if i < 1 {
+			r.Sample("stress", map[string]any{"plan": plan, "decision_order": res.OrderSig})
+		}
+	})
+	r.Floor("stress_histories", int64(n*9/10))
+}
+
 func httpMapping(r *mon.Run) {}
